@@ -123,6 +123,104 @@ class Origins:
                 if len(cur) != before:
                     changed = True
 
+    # ---- flow-restricted query: only definitions that can reach block `bb`
+    def at(self, op_or_place, bb):
+        """labels of an operand/place as seen at block bb: a definition is considered only if its block can
+        reach bb in the CFG (parameters always).  Removes the typical flow-insensitive blur where a later
+        push into a container pollutes an earlier pop from it."""
+        from . import cfg as _cfg
+        fn = self.fn
+        key = ("can", bb)
+        cache = self.__dict__.setdefault("_can", {})
+        if bb not in cache:
+            preds = _cfg.preds(fn)
+            seen = set()
+            work = [bb]
+            while work:
+                x = work.pop()
+                for p_ in preds[x]:
+                    if p_ not in seen:
+                        seen.add(p_)
+                        work.append(p_)
+            cache[bb] = seen          # blocks that reach bb through at least one edge
+        can_strict = cache[bb]
+        can = can_strict | {bb}
+        memo = {}
+
+        def local_labels(l, stack):
+            if l in memo:
+                return memo[l]
+            if l in stack:
+                return set()
+            stack = stack | {l}
+            out = set()
+            for d in self.defs[l]:
+                if d[0] == "param":
+                    out.add(("param", d[1]))
+                elif d[0] == "assign":
+                    if d[1] not in can:
+                        continue
+                    out |= rvalue(d[4], d[1], stack)
+                elif d[0] == "call":
+                    # a call is the terminator of its block: its effects are visible at bb only after an edge
+                    if d[1] not in can_strict:
+                        continue
+                    t_ = d[2]
+                    out.add(("call", callee(t_), d[1]))
+                    for a in t_["args"]:
+                        out |= operand(a, stack)
+            if len(stack) == 1:
+                memo[l] = out
+            return out
+
+        def place(p_, stack):
+            out = set(local_labels(p_["l"], stack))
+            for e in p_["p"]:
+                if isinstance(e, dict):
+                    if "f" in e:
+                        out.add(("field", e["f"]))
+                    elif "v" in e:
+                        out.add(("variant", e["v"]))
+                    elif "i" in e:
+                        out |= local_labels(e["i"], stack)
+            if "*" in p_["p"]:
+                for base in self.alias[p_["l"]]:
+                    out |= local_labels(base, stack)
+            return out
+
+        def operand(op, stack):
+            pl = op_place(op)
+            if pl is not None:
+                return place(pl, stack)
+            return self.of_operand(op)
+
+        def rvalue(rv, b_, stack):
+            k = rv["k"]
+            out = set()
+            if k in ("use", "repeat", "cast", "bin", "un", "agg"):
+                if k == "cast":
+                    out.add(("cast", rv["cast"], rv["from"], rv["to"]))
+                elif k == "bin":
+                    out.add(("bin", rv["op"]))
+                elif k == "un":
+                    out.add(("un", rv["op"]))
+                elif k == "agg":
+                    out.add(("agg", rv.get("adt"), rv.get("variant"), b_))
+                for o_ in rv["ops"]:
+                    out |= operand(o_, stack)
+            elif k in ("ref", "rawptr"):
+                out |= place(rv["place"], stack)
+            elif k == "discr":
+                out.add(("discr",))
+                out |= place(rv["place"], stack)
+            else:
+                out.add(("other",))
+            return out
+
+        if "l" in op_or_place and "p" in op_or_place:
+            return place(op_or_place, frozenset())
+        return operand(op_or_place, frozenset())
+
     def _place_labels(self, p):
         out = set(self.lab[p["l"]])
         for e in p["p"]:
